@@ -79,7 +79,7 @@ func checkC18(c *Ctx) {
 	// Path exploration of convertAttrToField with the attribute's kind fixed to each slog.Kind constant in turn (and
 	// to one value that is no constant): which tests are made, and what is returned after each combination.
 	explicit := map[string]bool{}
-	an := conv.Params[0].Name()
+	an := PN(conv.Params[0])
 	kindVals := []int64{}
 	for k := range kinds {
 		kindVals = append(kindVals, k)
@@ -436,7 +436,7 @@ func checkC18(c *Ctx) {
 		ok := false
 		for _, r := range Returns(wg) {
 			atoms := AtomStrings(Guards(r))
-			if len(atoms) == 1 && (atoms[0] == wg.Params[1].Name()+` == ""` || atoms[0] == "len("+wg.Params[1].Name()+") == 0") {
+			if len(atoms) == 1 && (atoms[0] == PN(wg.Params[1])+` == ""` || atoms[0] == "len("+PN(wg.Params[1])+") == 0") {
 				ok = Strip(RetVals(r)[0]) == ssa.Value(wg.Params[0])
 			}
 		}
@@ -462,7 +462,7 @@ func checkC18(c *Ctx) {
 						bad = append(bad, "store to "+Desc(x.Addr))
 					}
 				case *ssa.Call:
-					if CallBuiltin(x) == "append" && strings.HasPrefix(Desc(x.Call.Args[0]), h.Name()+".") {
+					if CallBuiltin(x) == "append" && strings.HasPrefix(Desc(x.Call.Args[0]), PN(h)+".") {
 						if sl, ok := x.Call.Args[0].(*ssa.Slice); !ok || sl.Max == nil {
 							bad = append(bad, "append onto "+Desc(x.Call.Args[0])+" (may write into the parent's backing array shared with its other children)")
 						}
@@ -594,7 +594,7 @@ func c18Emission(fn *ssa.Function) *c18Emit {
 	if e.call == nil {
 		return nil
 	}
-	recv := fn.Params[0].Name()
+	recv := PN(fn.Params[0])
 	var flagAtom *Atom
 	for _, a := range Guards(e.call) {
 		a := a
@@ -804,7 +804,7 @@ func c18Carries(c *Ctx, rule string, fn *ssa.Function) {
 		if f == "core" || f == slogGroups {
 			continue
 		}
-		if b, ok := bf[f]; !ok || b.Desc != h.Name()+"."+f {
+		if b, ok := bf[f]; !ok || b.Desc != PN(h)+"."+f {
 			got := "left at its zero value"
 			if ok {
 				got = "set to " + b.Desc
@@ -897,7 +897,7 @@ func c18EmitProtocol(c *Ctx, rule string) {
 		}
 		for _, fn := range []*ssa.Function{hd, wa} {
 			recv := fn.Params[0]
-			rn := recv.Name()
+			rn := PN(recv)
 			cut := 0
 			seqs, trunc := ConcPaths(fn, ConcCfg{
 				MaxIter: 3, IterClosures: true, Cut: &cut, MaxStates: 400000,
